@@ -137,7 +137,8 @@ class _partial_normalize:
 
 def _aadd_cfgs():
     return [{"c1": a, "c2": b_} for a in (0, 1, 2) for b_ in (0, 1, 2)] + \
-           [{"c1": 1, "c2": 1, "d1": "int64", "d2": "float64"}, {"c1": 1, "c2": 2, "d1": "float64", "d2": "int64"}]      # operands of different dtypes
+           [{"c1": 1, "c2": 1, "d1": "int64", "d2": "float64"}, {"c1": 1, "c2": 2, "d1": "float64", "d2": "int64"}] + \
+           [{"c1": 1, "c2": 2, "other_adaptive": False}, {"c1": 2, "c2": 1, "other_adaptive": False}]      # an adaptive histogram plus a non-adaptive one (which stays non-adaptive)
 
 
 @contract(HB + ".__iadd__", props=["C05", "C12", "C13", "C14", "C18"], name=HB + ".__iadd__[adaptive, grid-compatible]")
@@ -150,7 +151,7 @@ class _iadd_adaptive:
     def inputs(b):
         c = b.cfg
         b1 = fixed_width(b, "B", count=c.c1, adaptive=True)
-        b2 = b.obj(FWB, _consecutive=None, _bins=None, _numpy_bins=None, _includes_right_edge=False, _adaptive=True,
+        b2 = b.obj(FWB, _consecutive=None, _bins=None, _numpy_bins=None, _includes_right_edge=False, _adaptive=getattr(c, "other_adaptive", True),
                    _bin_width=b1._bin_width, _align=True, _bin_count=c.c2, _times_min=(b.int("O.t") if c.c2 else None), _shift=b1._shift)
         h = hist1d(b, "h", b1, c.c1, dtype=getattr(c, "d1", "int64"))
         o = hist1d(b, "o", b2, c.c2, dtype=getattr(c, "d2", "int64"))
